@@ -1,13 +1,30 @@
 """C15: spec/EventBus.tla - generated histories with re-entrant handler bodies on the real event bus + free-running rounds."""
 import json, os, time
 from vlib import *
+import core
 
 ASSUME = [
     "a core-level handler that publishes would block on the bus itself; the property does not require that to work (only the stack registers core handlers and its handler does not publish): core bodies only (un)subscribe",
     "the effects of the application handlers' bodies of one event commute in the configurations used (they run concurrently)",
     "'core handlers have finished before any application handler runs' is observed through sequence numbers taken inside the handlers; the core handlers yield and sleep 0.2 ms so that an application handler started too early is seen",
     "handlers c1..c3 at core level (through the verif export), a1..a3 at application level; the bus is process-global, each check process owns it",
+    "the stack's own internal handler is observed through its effects (SpineCore: after a discovery reply the local node management subscribes to the peer's) over all connect / discover / disconnect histories of two peers",
 ]
+# the stack's own internal handler (DeviceLocal, core level) is on the bus whenever a device is connected: after a discovery
+# reply it subscribes to the peer's node management and asks for its use cases - through every connect / disconnect history
+CORE_PART = {
+    "checked": ["csub", "ev", "conn", "known", "panic", "dupev"],
+    "assumptions": [],
+    "quick": {"mc": [{"acts": ["connect", "discover", "disconnect"], "maxlen": 6}],
+              # full history trees (a reconnection ends in an abstract state seen before, the bus registration is hidden state)
+              "gen": [{"acts": ["connect", "discover", "disconnect"], "maxlen": 6, "view": None},
+                      {"acts": ["connect", "discover", "disconnect", "lsub"], "maxlen": 6, "peers": ["p1"], "view": None}],
+              "sim": [], "cap": 8000},
+    "thorough": {"mc": [{"acts": ["connect", "discover", "disconnect"], "maxlen": 8}],
+                 "gen": [{"acts": ["connect", "discover", "disconnect"], "maxlen": 8, "view": None},
+                         {"acts": ["connect", "discover", "disconnect", "lsub", "entrem"], "maxlen": 6}],
+                 "sim": [], "cap": 80000},
+}
 BODIES = [
     {},
     {"c1": ["unsubself"], "a1": ["unsub", "a2"]},
@@ -114,7 +131,13 @@ def run(prop, tier, seed, replay=None):
             path = write_replay(prop, "concurrent", {"property": prop, "defects": conc, "how": "harness events-stress -seed %d" % seed})
             print("VIOLATION property=%s replay=%s" % (prop, path))
             print("  concurrent rounds: %s" % json.dumps(conc)[:300])
+        cr = core.execute(prop, tier, seed, CORE_PART, clear=False)
+        viol += cr["viol"]
+        states += cr["cov"]["states"]
+        nsteps += cr["cov"]["evaluations"]
+        nbeh += cr["cov"]["traces_validated_against_impl"]
         cov = {"states": states, "transitions": trans, "traces_validated_against_impl": nbeh + rounds, "evaluations": nsteps, "distinct_nontrivial": nbeh,
+               "internal_handler_part": {k: cr["cov"][k] for k in ("traces_validated_against_impl", "evaluations", "checked_components", "bad_steps")},
                "rule": "BFS transition cover of EventBusMC (handler list x number of publications) for 5 configurations of handler bodies (none, unsubscribe self / other, subscribe other, "
                        "nested publish; both levels), executed on the real process-global bus with quiescence after every operation; plus free-running rounds of 6 goroutines; "
                        "distinct = behaviours",
